@@ -10,7 +10,7 @@ LEVEL_TEXT = {
  'C03': ('exploration', 'every body invocation of every generated run is checked against provenance-encoding reference kwargs and model-free rules', 'hypothesis PBT, provenance digests, reference interpreter'),
  'C04': ('exploration', 'per-node invocation counts compared with the reference on programs biased to sharing across scopes', 'hypothesis PBT, invocation counting vs reference model'),
  'C05': ('fault_enumeration', 'generated failing-node sets (thorough: all subsets for small programs) x schedules; verdict / value / cause identity against the reference', 'hypothesis PBT + exhaustive failing-subset enumeration, reference oracle'),
- 'C06': ('exploration', 'for every depth of every generated layered DAG, completions of that depth are withheld until quiescence and all siblings must have started', 'hypothesis PBT with hold-depth schedules on the virtual loop'),
+ 'C06': ('exploration', 'for every depth of every generated layered DAG, completions of that depth are withheld until quiescence and all siblings must have started; the same DAGs on a real thread pool with an untimed rendezvous of the widest depth (verdict: process quiescence)', 'hypothesis PBT with hold-depth schedules on the virtual loop; real-thread rendezvous with a state-based deadlock verdict'),
  'C07': ('exploration', 'stateful model-based testing: histories of runs / cancelled runs on one chart compared with fresh charts, deep snapshots of shared state', 'hypothesis stateful (RuleBasedStateMachine), differential vs fresh chart + snapshot invariants'),
  'C08': ('exploration', 'k overlapping runs on one virtual loop under one interleaved generated schedule, each compared with its solo run and the reference', 'hypothesis PBT, interleaved schedules, differential vs solo run'),
  'C09': ('exploration', 'generated switch programs (nested / shared / cases that are ancestors) with declared and unknown labels; routing, laziness and reuse against the reference', 'hypothesis PBT, reference interpreter (demand-driven laziness oracle)'),
@@ -21,9 +21,9 @@ LEVEL_TEXT = {
  'C14': ('exploration', 'grammar check over the event history observed by recording (possibly gated) event managers on generated runs', 'hypothesis PBT, history-grammar invariant'),
  'C15': ('translation_validation', 'build_dag output compared for equality with an independent graph construction from the spec, plus declaration-order permutation', 'hypothesis PBT, independent re-implementation (differential) + metamorphic permutation'),
  'C16': ('fault_enumeration', 'every applicable single-defect mutation (8 kinds x every reachable node) of generated valid programs must raise the paired error class', 'hypothesis PBT + exhaustive single-defect mutation enumeration'),
- 'C17': ('exploration', 'mode assignments under fake executors (equal outcomes), a sample on real thread/process pools, and six pool-registry states set up through the public API in subprocesses', 'hypothesis PBT, differential across execution modes, real pools sample, registry-state enumeration'),
- 'C18': ('exploration', 'stateful model-based testing of the filesystem store against a dict over adversarial ids, both formats, several contexts', 'hypothesis stateful (RuleBasedStateMachine) vs dict model'),
- 'C19': ('exploration', 'generated runs with a recording write-once store; saves compared with the reference finals', 'hypothesis PBT, recording write-once store, reference finals'),
+ 'C17': ('exploration', 'mode assignments under fake executors (equal outcomes), a sample on real thread/process pools, and eight pool-registry states / histories (incl. a chart reused after a pool shutdown) set up through the public API in subprocesses', 'hypothesis PBT, differential across execution modes, real pools sample, registry-state enumeration'),
+ 'C18': ('exploration', 'stateful model-based testing of the filesystem store against a dict over adversarial ids, both formats, several contexts, two store objects per key space', 'hypothesis stateful (RuleBasedStateMachine) vs dict model'),
+ 'C19': ('exploration', 'generated runs with a recording write-once store (immediate or suspending); completed saves compared with the reference finals', 'hypothesis PBT, recording write-once store, reference finals'),
  'C20': ('translation_validation', 'viewer config of generated file-backed programs compared with the DAG node/edge sets and declared attributes; JSON round trip; DAG snapshot unchanged', 'hypothesis PBT, projection oracle + round-trip'),
 }
 NOTE = {
